@@ -3,6 +3,7 @@ The loop of `kpm.greens_function` terminates and returns a solution within the r
 solution computed (whose residue exceeds the accuracy).
 -/
 import PymaVerif.Model.Kpm
+import Mathlib.Tactic
 
 namespace Pyma
 namespace Kpm
@@ -45,25 +46,27 @@ theorem loop_spec (resid : Nat → Rat) (atol : Rat) (maxM : Nat) :
       · simp only [hr, ↓reduceIte]
         exact ⟨m, rfl, fun _ => Rat.not_lt.mp hr, fun h => by cases h⟩
 
-/-- **C16 (KPM, control flow)**: with `max_moments ≥ 10` the call returns a solution (`sol` is bound); without a warning its residue is
+/-- **C16 (KPM, control flow)**: for every `max_moments ≥ 1` the call returns a solution (`sol` is bound); without a warning its residue is
 within the requested accuracy; with the warning the accuracy was not reached.  `fuel` iterations suffice as soon as
-`max_moments < 10 · 4^fuel` — the loop terminates. -/
-theorem greens_spec (resid : Nat → Rat) (atol : Rat) (maxM fuel : Nat) (h10 : 10 ≤ maxM) (hfuel : maxM < 10 * 4 ^ fuel) :
+`max_moments < min(10, max_moments) · 4^fuel` — the loop terminates. -/
+theorem greens_spec (resid : Nat → Rat) (atol : Rat) (maxM fuel : Nat) (hfuel : maxM < min 10 maxM * 4 ^ fuel) :
     ∃ k, (greens resid atol maxM fuel).moments = some k ∧
       ((greens resid atol maxM fuel).warned = false → resid k ≤ atol) ∧
       ((greens resid atol maxM fuel).warned = true → resid k > atol) := by
-  obtain ⟨k, hk, hnw, hw⟩ := loop_spec resid atol maxM fuel 10 none (.inr h10) (fun l hl => by cases hl) hfuel
-  exact ⟨k, hk, hnw, hw⟩
+  unfold greens
+  exact loop_spec resid atol maxM fuel (min 10 maxM) none (.inr (Nat.min_le_right 10 maxM)) (fun l hl => by cases hl) hfuel
 
-/-- with `max_moments < 10` the Python function raises `UnboundLocalError` (no solution was ever computed): recorded behaviour -/
-theorem greens_unbound (resid : Nat → Rat) (atol : Rat) (maxM fuel : Nat) (h : maxM < 10) :
-    greens resid atol maxM fuel = ⟨none, true⟩ := by
-  unfold greens loop
-  have : 10 > maxM := h
-  simp [this]
+/-- enough fuel exists for every `max_moments ≥ 1` -/
+theorem greens_fuel (maxM : Nat) (h1 : 1 ≤ maxM) : maxM < min 10 maxM * 4 ^ maxM := by
+  have h4 : maxM < 4 ^ maxM := Nat.lt_pow_self (by norm_num)
+  have hm : 1 ≤ min 10 maxM := by omega
+  calc maxM < 4 ^ maxM := h4
+    _ = 1 * 4 ^ maxM := (Nat.one_mul _).symm
+    _ ≤ min 10 maxM * 4 ^ maxM := Nat.mul_le_mul_right _ hm
 
 example : greens (fun m => 1 / (m : Rat)) (1 / 100) 1000 5 = ⟨some 160, false⟩ := by decide +kernel
 example : greens (fun m => 1 / (m : Rat)) (1 / 100000) 1000 5 = ⟨some 640, true⟩ := by decide +kernel
+example : greens (fun m => 1 / (m : Rat)) (1 / 100) 5 3 = ⟨some 5, true⟩ := by decide +kernel          -- fewer than 10 moments allowed: the 5-moment solution, with the warning
 
 end Kpm
 end Pyma
